@@ -149,7 +149,8 @@ Section Inv.
     wf_surj : forall i, i < length (stack s) -> exists d nd, nodeat s d nd /\ gn_depth nd = Some i;
     wf_mono : forall d d' nd nd' i i', nodeat s d nd -> nodeat s d' nd' ->
                gn_depth nd = Some i -> gn_depth nd' = Some i' -> (d < d' <-> i < i');
-    wf_pend : forall d nd, nodeat s d nd -> gn_depth nd = None -> exists l, gn_links nd = Some l /\ l < d;
+    wf_pend : forall d nd, nodeat s d nd -> gn_depth nd = None ->
+               exists l ndl, gn_links nd = Some l /\ l < d /\ nodeat s l ndl /\ path G (gn_goal nd) (gn_goal ndl);
     (** every graph node reaches the node on top of the stack; lower stack nodes reach higher ones *)
     wf_top : forall d nd dt ndt, nodeat s d nd -> nodeat s dt ndt ->
                gn_depth ndt = Some (length (stack s) - 1) -> path G (gn_goal nd) (gn_goal ndt);
@@ -165,6 +166,15 @@ Section Inv.
        (coind (get G (gn_goal nd)) <> tv th (gn_sol nd) -> Abs G th (tv th (gn_sol nd)) (gn_goal nd)) /\
        (coind (get G (gn_goal nd)) = tv th (gn_sol nd) -> gn_depth nd = None ->
           Rel th (tv th (gn_sol nd)) s (gn_links nd) (gn_goal nd));
+  }.
+
+  (** [s'] keeps the nodes and stack entries of [s] (flags may have been set) *)
+  Record sub (s s' : state) : Prop := {
+    sub_stack : forall i e, nth_error (stack s) i = Some e ->
+                 exists e', nth_error (stack s') i = Some e' /\ se_coind e' = se_coind e /\
+                            (se_cycle e = true -> se_cycle e' = true);
+    sub_graph : forall d nd, nodeat s d nd -> nodeat s' d nd;
+    sub_int : interrupted s = true -> interrupted s' = true;
   }.
 
   (** what a sub-computation may do to the state it started from *)
@@ -213,39 +223,75 @@ Section Inv.
     - intros H. apply (ext_int _ _ B). apply (ext_int _ _ A). auto.
   Qed.
 
-  Lemma trusted_ext th b s s' : ext s s' -> trusted th b s' -> trusted th b s.
+  Lemma ext_sub s s' : ext s s' -> sub s s'.
+  Proof. intros E. constructor; [apply (ext_stack _ _ E)|apply (ext_graph _ _ E)|apply (ext_int _ _ E)]. Qed.
+
+  Lemma sub_refl s : sub s s.
+  Proof. constructor; auto. intros i e H. exists e. auto. Qed.
+
+  Lemma sub_trans s1 s2 s3 : sub s1 s2 -> sub s2 s3 -> sub s1 s3.
   Proof.
-    intros E [H|H]; [left; auto|]. right.
-    destruct (interrupted s) eqn:Hi; auto. rewrite (ext_int _ _ E Hi) in H. discriminate.
+    intros A B. constructor.
+    - intros i e H. destruct (sub_stack _ _ A i e H) as [e' [H1 [H2 H3]]].
+      destruct (sub_stack _ _ B i e' H1) as [e'' [H4 [H5 H6]]].
+      exists e''. repeat split; auto; congruence.
+    - intros d nd H. apply (sub_graph _ _ B). apply (sub_graph _ _ A). auto.
+    - intros H. apply (sub_int _ _ B). apply (sub_int _ _ A). auto.
   Qed.
 
-  Lemma flagged_ext s s' nd : ext s s' -> flagged s nd -> (forall i, gn_depth nd = Some i -> i < length (stack s)) -> flagged s' nd.
+  Lemma trusted_sub th b s s' : sub s s' -> trusted th b s' -> trusted th b s.
+  Proof.
+    intros E [H|H]; [left; auto|]. right.
+    destruct (interrupted s) eqn:Hi; auto. rewrite (sub_int _ _ E Hi) in H. discriminate.
+  Qed.
+
+  Lemma trusted_ext th b s s' : ext s s' -> trusted th b s' -> trusted th b s.
+  Proof. intros E. apply trusted_sub. apply ext_sub; auto. Qed.
+
+  Lemma flagged_sub s s' nd : sub s s' -> flagged s nd -> (forall i, gn_depth nd = Some i -> i < length (stack s)) -> flagged s' nd.
   Proof.
     intros E F Hlt i e' Hd He'.
     specialize (Hlt i Hd).
     destruct (nth_error (stack s) i) as [e|] eqn:He; [|apply nth_error_None in He; lia].
-    destruct (ext_stack _ _ E i e He) as [e2 [H1 [_ H3]]].
+    destruct (sub_stack _ _ E i e He) as [e2 [H1 [_ H3]]].
     assert (e2 = e') by congruence. subst. apply H3. eapply F; eauto.
   Qed.
 
-  Lemma GL_mono th b s s' l l' z :
-    WF s -> ext s s' -> mn_le l' l -> GL th b s l z -> GL th b s' l' z.
+  Lemma GL_sub th b s s' l l' z :
+    WF s -> sub s s' -> mn_le l' l -> GL th b s l z -> GL th b s' l' z.
   Proof.
     intros W E Hl [d [nd [Hn [Hg [Ht [Hc [Hd Hf]]]]]]].
     exists d, nd. repeat split; auto.
-    - apply (ext_graph _ _ E); auto.
+    - apply (sub_graph _ _ E); auto.
     - eapply mn_le_trans; eauto.
-    - eapply flagged_ext; eauto. intros i Hi.
+    - eapply flagged_sub; eauto. intros i Hi.
       destruct (wf_dep _ W d nd i Hn Hi) as [_ [e [He _]]].
       apply nth_error_Some. congruence.
   Qed.
 
-  Lemma Rel_mono th b s s' l l' g :
-    WF s -> ext s s' -> mn_le l' l -> Rel th b s l g -> Rel th b s' l' g.
+  Lemma Rel_sub th b s s' l l' g :
+    WF s -> sub s s' -> mn_le l' l -> Rel th b s l g -> Rel th b s' l' g.
   Proof.
     intros W E Hl [X [Hg HX]]. exists X. split; auto.
     intros x Hx. destruct (HX x Hx) as [Hc HN]. split; auto.
     eapply NJ1_mono; [|exact HN]. intros m [H|[H|H]]; auto.
-    right; right. eapply GL_mono; eauto.
+    right; right. eapply GL_sub; eauto.
+  Qed.
+
+  Lemma GL_mono th b s s' l l' z :
+    WF s -> ext s s' -> mn_le l' l -> GL th b s l z -> GL th b s' l' z.
+  Proof. intros W E. apply GL_sub; auto. apply ext_sub; auto. Qed.
+
+  Lemma Rel_mono th b s s' l l' g :
+    WF s -> ext s s' -> mn_le l' l -> Rel th b s l g -> Rel th b s' l' g.
+  Proof. intros W E. apply Rel_sub; auto. apply ext_sub; auto. Qed.
+
+  (** a variant of [NJ1_mono] that may use where the leaf sits *)
+  Lemma NJ1_mono_in th b (L L' : nat -> Prop) g :
+    (forall c m, In c (clauses (get G g)) -> In m (fst c) -> L m -> L' m) -> NJ1 th b L g -> NJ1 th b L' g.
+  Proof.
+    intros HL. destruct b; simpl.
+    - intros [c [Hin [Hus Hs]]]. exists c. repeat split; auto. intros m Hm. eapply HL; eauto.
+    - intros H c Hin Hus. destruct (H c Hin Hus) as [m [Hm HLm]]. exists m. split; auto. eapply HL; eauto.
   Qed.
 End Inv.
